@@ -6,6 +6,7 @@ import Nsq.Proofs.ChanCount
 import Nsq.Proofs.ChanInvA
 import Nsq.Proofs.ChanInvOk
 import Nsq.Props.C02
+import Nsq.Proofs.ChanInFl
 import Nsq.Props.C01
 import Nsq.Proofs.ChanStats
 namespace Nsq.Props.C13
@@ -89,32 +90,42 @@ theorem nonneg {conf : Conf} (hconf : 0 ≤ conf.maxRdy) {c : Chan} (h : Reachab
   have h2 := ha.clA cl hcl
   exact ⟨by rw [h2.1]; exact heldBy_nonneg _ _, (ha.inv.cl cl hcl).2.2.2.2.1, h2.2.2.1⟩
 
-/-! ### F8: the micro-step counter-example -/
+/-! ### `in_flight_count` over ALL schedules (fix F13; formerly finding F8) -/
 
-/-- the full-strength statement over *all* schedules (FIN split into its two critical sections) -/
-def nonneg_full : Prop :=
-  ∀ (conf : Conf) (c : Chan), C02.Reachable conf c → ∀ cl ∈ c.clients, 0 ≤ cl.inFlight
+/-- C13.4 at full strength — over every schedule, with FIN split into its two critical sections
+(`finChan | finClient`) and the pump into `guard | deliverArmed`: a consumer's `in_flight_count` is
+the number of messages it holds in the in-flight map plus the number of its FINs that have
+completed on the channel and not yet run `client.FinishedMessage()`. `Channel.Empty` subtracts
+per consumer exactly what it dropped (`clientV2.Discarded`, fix F13), so the equation survives an
+`Empty` inside the FIN window. -/
+theorem inflight_exact_full {conf : Conf} {c : Chan} (h : C02.Reachable conf c) {cl : Client} (hcl : cl ∈ c.clients) :
+    cl.inFlight = (heldBy c.msgs cl.conn : Int) + (c.pendingFin.count cl.conn : Nat) := by
+  obtain ⟨eph, cap, ops, rfl⟩ := h
+  exact (run_invFl conf ops (inv_init eph cap) (inFl_init eph cap)).2 cl hcl
 
-/-- the schedule: consumer 1 holds message 7; its FIN completes on the channel
-(`Channel.FinishMessage`), `Channel.Empty` zeroes the client's counter, then
-`client.FinishedMessage()` decrements it -/
+/-- … in particular it is never negative, along any schedule (this was false before F13: the
+schedule `f8Ops` below drove it to −1 when `Empty` stored 0). -/
+theorem nonneg_full {conf : Conf} {c : Chan} (h : C02.Reachable conf c) {cl : Client} (hcl : cl ∈ c.clients) :
+    0 ≤ cl.inFlight := by
+  rw [inflight_exact_full h hcl]
+  omega
+
+/-- the executable form the driver evaluates at `inv` lines of micro-step episodes -/
+theorem inFlOk_sound {conf : Conf} {c : Chan} (h : C02.Reachable conf c) : inFlOk c = true := by
+  simp only [inFlOk, List.all_eq_true, beq_iff_eq]
+  exact fun cl hcl => inflight_exact_full h hcl
+
+/-- the former F8 schedule: consumer 1 holds message 7; its FIN completes on the channel
+(`Channel.FinishMessage`), `Channel.Empty` runs, then `client.FinishedMessage()` decrements -/
 def f8Ops : List Op :=
   [.put 7, .addClient 1 60 0, .rdy 1 1, .deliver 1 7 100, .finChan 1 7, .empty, .finClient 1]
 
-theorem f8_schedule_example :
-    (run {} {} f8Ops).clients.map (·.inFlight) = [-1] := by decide
+/-- after `Empty` inside the window the counter is still 1 (the pending FIN's), afterwards 0 -/
+example : (run {} {} (f8Ops.take 6)).clients.map (·.inFlight) = [1] ∧
+    (run {} {} f8Ops).clients.map (·.inFlight) = [0] := by decide
 
-theorem nonneg_full_false : ¬ nonneg_full := by
-  intro h
-  have := h {} (run {} {} f8Ops) ⟨false, 0, f8Ops, rfl⟩
-  have hc : ∃ cl ∈ (run ({} : Conf) {} f8Ops).clients, cl.inFlight = -1 := by decide
-  obtain ⟨cl, hcl, hneg⟩ := hc
-  have := this cl hcl
-  omega
-
-/-- afterwards the C03 bound is off by one: the model accepts a delivery while the consumer
-already holds a message and RDY is 1 -/
-example : ((step {} (run {} {} (f8Ops ++ [.put 8, .put 9, .deliver 1 8 200])) (.deliver 1 9 201)).2) = .msg 1 := by decide
+/-- and the C03 bound is intact afterwards: with RDY 1 and one message held the next delivery is refused -/
+example : ((step {} (run {} {} (f8Ops ++ [.put 8, .put 9, .deliver 1 8 200])) (.deliver 1 9 201)).2) = .reject "guard" := by decide
 
 /-! non-vacuity -/
 example : ReachableA {} (run {} {} [.put 7, .addClient 1 60 0, .rdy 1 1, .deliver 1 7 100, .fin 1 7]) :=
